@@ -355,7 +355,9 @@ def kind_of_terminal(cfg):
 
 
 # ------------------------------------------------------------------ text generation
-WS_IN = [" ", "  ", "\t", " \t ", " ", " "]
+# white space that is NOT a line break for split('\n') but is one for str.splitlines(): \r \x0b \x0c \x1c-\x1e \x85 \u2028 \u2029
+LINEISH = ["\r", "\x0b", "\x0c", "\x1c", "\x1d", "\x1e", "\x85", "\u2028", "\u2029"]
+WS_IN = [" ", "  ", "\t", " \t ", " ", " ", " ", "  ", "\t", " ", "\r", "\x0c ", "\u2028", " \x85"]
 WS_TRAIL = ["", "", " ", "  ", "\t", " \r", "\r", "  "]
 FOREIGN = ["@", "é", "$", "中", "~", "\t", "A", "\U0001f600"]
 
@@ -484,7 +486,7 @@ def prev_texts(cfg):
 
 
 def gen_cases(rng, tier, n=None):
-    n = n or (14000 if tier == "thorough" else 1500)
+    n = n or (14000 if tier == "thorough" else 1800)
     cases = []
     cids = sorted(CONFIGS)
     # fixed probes (every configuration)
@@ -493,6 +495,8 @@ def gen_cases(rng, tier, n=None):
         o, c, e = cfg["open"], cfg["close"], cfg["eol"]
         probes = ["", "\n", "  ", "\n\n ab", "ab\ncd 12", "ab   12", " ab\n cd\n", "ab \n\ncd\t\n\n", "a\n\n\nb", "12ab+;(x)",
                   "a @ b", "a\n@", "ab\n  é cd", "中", "a\r\nb\r\n", "x y", '"unterminated', "a\tb"]
+        # one line for split('\n'), several for splitlines()
+        probes += [f"a{c}b" for c in LINEISH] + ["ab\r\rcd 12\nx", "a\x0c\nb\u2028 c\n\x1d@", "\r\x0b a\n b"]
         if o:
             probes += [f"a {o} x {c} b", f"a {o} x\n y {c} b\nc", f"{o}\n{c}", f"a {o} never", f"a\n{o}\n\nnever\n", f"{o}{c}{o}{c}",
                        f"a {o} x\n\n\n {c}", f"{o} @ {c} @", f"{o}\n @ \n{c}\n@", f"{o}{c[0]}{c}", f"a{o}b\n{c}c{o}d\n\n{c}e"]
